@@ -187,3 +187,11 @@ func verif_x_fslock_LockWithTimeout(l *fslock.Lock, timeout time.Duration) (err 
 }
 
 func verif_x_fslock_Unlock(l *fslock.Lock) (err error) { return l.Unlock() }
+
+func verif_x_tableIndex_entrySuffixMatches(ti tableIndex, idx uint32, h *hash.Hash) (m bool, err error) {
+	return ti.entrySuffixMatches(idx, h)
+}
+
+func verif_x_tableIndex_indexEntry(ti tableIndex, idx uint32, a *hash.Hash) (entry indexEntry, err error) {
+	return ti.indexEntry(idx, a)
+}
